@@ -155,6 +155,18 @@ def ciq_direct_pred(spec, K, rhs, out, tol, nq=15):
     e = relerr(res, target)
     if not e <= b_root:
         fails.append(("root", "(solves * weights).sum(0) differs from K^(%s1/2) rhs by %.3g (rel., bound %.1g)" % ("-" if spec["inverse"] else "", e, b_root)))
+    if spec.get("rhs_kind") == "orth":
+        # rhs orthogonal: res = R Q, so res res^T = R R^T must be K^-1 (inverse) / K (covariance of ciq samples), whatever
+        # root (symmetric or not) the quadrature produces
+        G = res @ res.mT
+        e = relerr(G, Kinv if spec["inverse"] else Kb)
+        if not e <= 3 * b_root:
+            fails.append(("gram", "R R^T of the computed root R = (solves * weights).sum(0) rhs^T differs from K^(%s1) by %.3g (rel.)"
+                          % ("-" if spec["inverse"] else "", e)))
+    if spec.get("precond"):
+        # with a preconditioner the individual solves belong to (-K + t P) x = b and the nodes to the preconditioned
+        # spectrum: only the weighted sum is claimed
+        return fails
     e = relerr(no_shift, -(Kinv @ rb))
     if not e <= b_eq:
         fails.append(("no-shift", "no_shift_solves differs from -K^-1 rhs by %.3g (rel.)" % e))
@@ -238,18 +250,28 @@ def generic_pred(out, gen, has_lhs, tol, spec, nq=15):
     return fails
 
 
-def sample_pred(spec, K, samples, tol, nq=15):
-    """base samples = unit vectors: sample k is the k-th column of the square root applied; sum_k s_k s_k^T = K"""
+def sample_pred(spec, K, samples, tol, nq=15, base=None):
+    """ciq samples s_k = R z_k for prescribed base samples z_k (columns of `base`, (*batch, n, ns)).  ns >= n and base with
+    orthonormal rows (default: the identity): sum_k s_k s_k^T = R R^T = K.  ns < n (orthonormal columns): without a
+    preconditioner the root is the symmetric one, s_k = K^(1/2) z_k."""
     n = spec["n"]
     batch = tuple(K.shape[:-2])
-    if list(samples.shape) != [n] + list(batch) + [n]:
-        return [("shape", "zero_mean_mvn_samples shape %s" % list(samples.shape))]
+    ns = n if base is None else base.shape[-1]
+    if list(samples.shape) != [ns] + list(batch) + [n]:
+        return [("shape", "zero_mean_mvn_samples shape %s, expected %s" % (list(samples.shape), [ns] + list(batch) + [n]))]
     if not ciq_in_scope(spec):
         return []
     b_root, _, _ = ciq_bounds(spec, tol, nq)
     Sm = samples.permute(*range(1, len(batch) + 1), 0, len(batch) + 1)      # (*batch, k, n): rows are samples
-    cov = Sm.mT @ Sm
-    e = relerr(cov, K)
-    if not e <= 3 * b_root:
-        return [("covariance", "ciq samples from unit base samples have sum_k s_k s_k^T differing from K by %.3g (rel.)" % e)]
+    if ns >= n:
+        cov = Sm.mT @ Sm
+        e = relerr(cov, K)
+        if not e <= 3 * b_root:
+            return [("covariance", "ciq samples (%d samples of size %d, base samples with orthonormal rows) have sum_k s_k s_k^T "
+                                   "differing from K by %.3g (rel.)" % (ns, n, e))]
+    elif not spec.get("precond"):
+        w, Ksq, _, _ = spectral(K)
+        e = relerr(Sm.mT, Ksq @ base)
+        if not e <= 3 * b_root:
+            return [("sample-root", "ciq samples (%d samples of size %d) differ from K^(1/2) z_k by %.3g (rel.)" % (ns, n, e))]
     return []
